@@ -84,6 +84,17 @@ def gen_tagset(rng, tree, state, branches):
             continue
         names.add(name)
         tags.append({"name": name, "kind": kind, "branch": rng.choice(branches), "depth": rng.randint(0, 2)})
+        if kind in ("valid", "respelled") and rng.random() < 0.2:
+            # another project's / an older convention's spelling of the very same version ("1.3.0" beside "v1.3.0"): equal
+            # as a version, not a tag of this pattern, and listed before it
+            cands = [name[1:], "V" + name[1:]] if name[:1] == "v" else ["v" + name, name + ".0", "V" + name]
+            rng.shuffle(cands)
+            for cand in cands:
+                if cand and cand not in names and not rp.accepts(tree, cand) and pep440.is_pep440(cand) and \
+                        pep440.is_pep440(name) and pep440.cmp(cand, name) == 0:
+                    names.add(cand)
+                    tags.append({"name": cand, "kind": "equal_other", "branch": rng.choice(branches), "depth": rng.randint(0, 2)})
+                    break
     return tags
 
 
